@@ -39,7 +39,7 @@ PROPS = {
         'repotests': True,
         'mc_quick': ['MC_quick.cfg'], 'mc_thorough': MC_THOROUGH,
         'title': 'Cache transparency',
-        'units': [('swap', 1200, 15000), ('subcache', 600, 8000), ('general', 1500, 30000), ('nested', 1500, 30000), ('rebuild', 500, 10000), ('foreign', 500, 8000),
+        'units': [('swap', 1200, 15000), ('subcache', 600, 8000), ('general', 1500, 30000), ('nested', 1500, 30000), ('selfnest', 400, 6000), ('rebuild', 500, 10000), ('foreign', 500, 8000),
                   ('clean', 300, 4000), ('regress', 0, 0)],
         # a stale answer anywhere (C01: "always shows up in the result exactly as from scratch")
         'owned': C01_CLAUSES,
@@ -53,10 +53,14 @@ PROPS = {
         'repotests': True,
         'mc_quick': ['MC_quick_clean.cfg'], 'mc_thorough': MC_THOROUGH,
         'title': 'Rollback',
-        'units': [('swap', 1500, 20000), ('subcache', 500, 6000), ('crash', 2000, 40000), ('forcrash', 800, 15000), ('foreign', 400, 6000),
+        'units': [('swap', 1500, 20000), ('subcache', 500, 6000), ('crash', 2000, 40000), ('forcrash', 800, 15000), ('foreign', 400, 6000), ('selfnest', 600, 8000),
                   ('regress', 0, 0)],
+        # "... or while the cache file is being written": an OSError injected into the cache open / write of a
+        # build whose function returned normally, on histories with and without a cache directory of its own
+        'fault_units': (240, 3000, 0, 0), 'fault_profile': ['subcache', 'crash'],
+        'fault_calls': ['gzip.open:w', 'gzip.write'],
         'owned': {'ExcIdentity', 'RollbackRestores', 'ExceptionPropagates', 'ExceptionClassMatches',
-                  'TempDirRemoved', 'ForeignUntouched'},
+                  'TempDirRemoved', 'ForeignUntouched', 'CacheReplacedOnlyOnSuccess', 'FaultSurfaces'},
         'after_rollback_all': True,      # "a subsequent build behaves exactly as if the failed build had never run"
         'nontrivial': lambda st, sc: st['rollback'] > 0 and st['commit'] > 0,
         'rule': 'crash point = every position of the root function (and uncaught nested failures) x history '
@@ -68,7 +72,7 @@ PROPS = {
         'mc_quick': ['MC_quick_clean.cfg'], 'mc_thorough': [('MC_tiny.cfg', 600)],
         'title': 'Foreign files',
         'units': [('swap', 1200, 15000), ('subcache', 400, 5000), ('foreign', 1500, 30000), ('forcrash', 1500, 30000), ('clean', 400, 8000),
-                  ('crash', 300, 5000)],
+                  ('crash', 300, 5000), ('selfnest', 800, 10000)],
         'owned': {'ForeignUntouched'},
         'nontrivial': lambda st, sc: st['commit'] + st['rollback'] + st['clean'] > 1,
         'rule': 'foreign files planted inside created directories, at former output positions and next to '
@@ -77,10 +81,11 @@ PROPS = {
     },
     'C04': {
         'repotests': True,
-        'mc_quick': ['MC_quick.cfg'], 'mc_thorough': MC_THOROUGH,
+        'mc_quick': ['MC_quick.cfg'], 'mc_thorough': MC_THOROUGH + [('MC_self.cfg', 900)],
+        'sim': [('MC_sim.cfg', 100, 1500, 60), ('MC_sim_self.cfg', 30, 500, 60)],
         'title': 'Virtual view',
         'units': [('swap', 800, 10000), ('forcrash', 600, 8000), ('probe', 700, 12000), ('general', 500, 8000), ('nested', 1000, 15000), ('bfcontract', 300, 5000),
-                  ('regress', 0, 0)],
+                  ('selfnest', 500, 6000), ('regress', 0, 0)],
         'owned': {'AnswerMatches'},
         'nontrivial': lambda st, sc: st['q'] >= 10,
         'rule': 'every query kind on every universe path ("probe-all") at many points of random programs; '
@@ -204,6 +209,9 @@ PROPS = {
         'title': 'Thread safety',
         'thread_units': (150, 1500, 10, 0, 3, 12),   # base histories q/t, single preemptions per par q/t (0 = all), pairs q/t
         'full_pairs': (12, 150),                     # two-thread histories whose (k1, k2) preemption pairs are all enumerated
+        # concurrent rebuilds of existing outputs followed by a rollback: profile, histories q/t, singles q/t (0 = all),
+        # pairs q/t, fully enumerated histories q/t
+        'thread_extra': [('threadsrb', 40, 500, 0, 0, 2, 10, 2, 30)],
         'units': [('regress', 0, 0)],
         'owned': set(CLAUSE_OWNER) | {'NoDeadlock'},
         'nontrivial': lambda st, sc: any(x.get('s') == 'par' and (x.get('preempt') or x.get('rseed') is not None)
@@ -233,9 +241,11 @@ PROPS = {
     },
     'C10': {
         'repotests': True,
-        'mc_quick': ['MC_quick.cfg'], 'mc_thorough': [('MC_nest.cfg', 1500)],
+        # MC_self*: Targets not prefix-free (a function can treat its own target as a directory)
+        'mc_quick': ['MC_quick.cfg', 'MC_self_q.cfg'], 'mc_thorough': [('MC_nest.cfg', 1500), ('MC_self.cfg', 900)],
+        'sim': [('MC_sim.cfg', 100, 1500, 60), ('MC_sim_self.cfg', 30, 500, 60)],
         'title': 'build_file contract',
-        'units': [('nested', 1500, 20000), ('swap', 600, 8000), ('bfcontract', 2000, 30000), ('probe', 300, 5000), ('regress', 0, 0)],
+        'units': [('nested', 1500, 20000), ('swap', 600, 8000), ('bfcontract', 2000, 30000), ('probe', 300, 5000), ('selfnest', 800, 10000), ('regress', 0, 0)],
         'owned': {'TargetFileAfterOk', 'TargetAbsentAfterFail', 'OutcomeMatches', 'PathNormalised',
                   'SetupErrClass', 'SetupFailExpected', 'ExcIdentity', 'ReturnMatches', 'AnswerMatches',
                   'FinalTreeMatches', 'RollbackRestores', 'CleanExact', 'ExceptionClassMatches',
